@@ -1,0 +1,77 @@
+//go:build verif
+
+package spdxexp
+
+// Observation points for the verification harness under /verif.  Compiled only with
+// the build tag "verif"; nothing in the library calls these functions.
+
+// VerifScan returns the token stream of scan: one "<role>:<value>" string per token
+// (roles: op, docref, licref, lic, exc), or the scanner's error.
+func VerifScan(expression string) ([]string, error) {
+	tokens, err := scan(expression)
+	if err != nil {
+		return nil, err
+	}
+	names := map[tokenrole]string{
+		operatorToken:    "op",
+		documentRefToken: "docref",
+		licenseRefToken:  "licref",
+		licenseToken:     "lic",
+		exceptionToken:   "exc",
+	}
+	out := make([]string, len(tokens))
+	for i, t := range tokens {
+		out[i] = names[t.role] + ":" + t.value
+	}
+	return out, nil
+}
+
+// VerifTree returns the parse tree of an expression in prefix form:
+// "&(l,r)", "|(l,r)" for AND / OR nodes, the reconstructed license string for terms.
+func VerifTree(expression string) (string, error) {
+	n, err := parse(expression)
+	if err != nil {
+		return "", err
+	}
+	return verifTree(n), nil
+}
+
+func verifTree(n *node) string {
+	if n == nil {
+		return "<nil>"
+	}
+	if n.isExpression() {
+		op := "&"
+		if n.isOrExpression() {
+			op = "|"
+		}
+		return op + "(" + verifTree(n.left()) + "," + verifTree(n.right()) + ")"
+	}
+	s := n.reconstructedLicenseString()
+	if s == nil {
+		return "<nil>"
+	}
+	return *s
+}
+
+// VerifExpand returns expand(true) of the parsed expression: the alternatives, each a
+// list of reconstructed license strings, in the order the library produces them.
+func VerifExpand(expression string) ([][]string, error) {
+	n, err := parse(expression)
+	if err != nil {
+		return nil, err
+	}
+	expanded := n.expand(true)
+	out := make([][]string, len(expanded))
+	for i, alt := range expanded {
+		out[i] = make([]string, len(alt))
+		for j, x := range alt {
+			if s := x.reconstructedLicenseString(); s != nil {
+				out[i][j] = *s
+			} else {
+				out[i][j] = "<nil>"
+			}
+		}
+	}
+	return out, nil
+}
